@@ -377,3 +377,22 @@ def callbacks_never_stop(ck, prog, rule, hosts, callee_suffixes=('ForEachKeyValu
                        'the callback returns true on all %d exits' % len(rets) if not bad else
                        'a callback that copies the caller\'s entries can return something other than true: the iteration stops there and every later attribute / link is silently dropped')
     return cnt
+
+
+def loops_over(f, container_pred):
+    """Loop nodes of f that iterate over a container whose access path satisfies container_pred (a tuple such as ('this', 'x_')).
+    Recognised shapes: a range-for over the container (or over *ptr / ptr->member); an index or iterator loop (for / while) whose
+    condition compares against container.size() / end() / cend() / empty()."""
+    out = []
+    for n in f.nodes:
+        if n['k'] == 'forrange':
+            if container_pred(access_path(f, n['range'])):
+                out.append(n)
+        elif n['k'] in ('for', 'while') and n.get('cnd') is not None and n['cnd'] >= 0:
+            for j in f.subtree(n['cnd']):
+                m = f.nodes[j]
+                if m['k'] == 'call' and m.get('obj') is not None and strip_targs(m.get('c', '')).rsplit('::', 1)[-1] in ('size', 'end', 'cend', 'length') and \
+                        container_pred(access_path(f, m['obj'])):
+                    out.append(n)
+                    break
+    return out
